@@ -58,6 +58,7 @@ func runWorld(t *rapid.T, prop string) {
 	if vev.Thorough() && rapid.IntRange(0, 9).Draw(t, "longchains") == 0 {
 		gen.MaxPathLen = 127
 	}
+	gen.AllowDivergent = !unanimous && (prop == "C02" || prop == "C07")
 	profile := rapid.SampledFrom(vnet.Profiles).Draw(t, "profile")
 	if forced := os.Getenv("VERIF_PROFILE"); forced != "" {
 		profile = forced // development aid only
@@ -185,6 +186,7 @@ func runWorld(t *rapid.T, prop string) {
 		fmt.Sprintf("forged-flood>0:%v", w.Stats.ForgedFloods > 0),
 		fmt.Sprintf("supp-variant>0:%v", w.Stats.SuppVariants > 0),
 		fmt.Sprintf("validated-then-queued>0:%v", w.Stats.StagedReceived > 0),
+		fmt.Sprintf("participant-with-diverged-base-view:%v", len(cfg.Divergent) > 0),
 		fmt.Sprintf("greedy-decider:%v/realised:%v", ro.GreedyDecide, w.Stats.KillDecisions > 0),
 	}
 	if unanimous {
